@@ -44,6 +44,7 @@ func (c *cachedRoutes) Len() int {
 func (c *cachedRoutes) Set(k string, v *Route) bool {
 	c.lock.Lock()
 	defer c.lock.Unlock()
+	defer verifCacheOp(c, "set", k)
 
 	// key has been exists, update value
 	if element, isFound := c.hashMap[k]; isFound {
@@ -77,6 +78,7 @@ func (c *cachedRoutes) Set(k string, v *Route) bool {
 func (c *cachedRoutes) Get(k string) (*Route, bool) {
 	c.lock.RLock()
 	defer c.lock.RUnlock()
+	defer verifCacheOp(c, "get", k)
 
 	if element, ok := c.hashMap[k]; ok {
 		c.list.MoveToFront(element)
@@ -92,6 +94,7 @@ func (c *cachedRoutes) Get(k string) (*Route, bool) {
 func (c *cachedRoutes) Delete(k string) bool {
 	c.lock.Lock()
 	defer c.lock.Unlock()
+	defer verifCacheOp(c, "del", k)
 
 	if element, ok := c.hashMap[k]; ok {
 		cacheNode := element.Value.(*cacheNode)
